@@ -114,7 +114,7 @@ def CP_D(b):
 # ---- chunked reading model (C05)
 def isNB(data, cs, r):
     """r is the next break of the chunk starting at cs: first index >= cs holding 0xFF, else len."""
-    return (cs <= r and r <= len(data) and all(data[k] != 0xFF for k in range(cs, r))
+    return (0 <= cs and cs <= r and r <= len(data) and all(data[k] != 0xFF for k in range(cs, r))
             and (r == len(data) or data[r] == 0xFF))
 
 
